@@ -150,6 +150,32 @@ pub fn programs(cfg: Cfg, thorough: bool) -> Vec<Program> {
             }
         }
     }
+    if thorough && !cfg.persistent {
+        // four threads, one op each, bound limited by the caller
+        let quad: Vec<Op> = vec![ins(V_X, 0), Op::Delete { k: 0, ts: 0 }, Op::Incr { k: 0, delta: 1, ts: 0, ttl: 0 }, Op::Ifa { k: 0, v: V_Y }, Op::Cas { k: 0, expect: V_X, new: V_Y, ts: 0, ttl: 0 }, Op::Get(0)];
+        for (iname, setup) in initials() {
+            for a in 0..quad.len() {
+                for b in a..quad.len() {
+                    for c in b..quad.len() {
+                        for d in c..quad.len() {
+                            let ops = [quad[a], quad[b], quad[c], quad[d]];
+                            if !ops.iter().all(|o| relevant(iname, o)) || ops.iter().filter(|o| matches!(o, Op::Get(_))).count() > 1 {
+                                continue;
+                            }
+                            v.push(Program {
+                                name: format!("quad-mem:{}:{}", iname, ops.iter().map(|o| t.describe(o)).collect::<Vec<_>>().join("|")),
+                                cfg,
+                                tables: t.clone(),
+                                setup: setup.clone(),
+                                threads: ops.iter().map(|o| vec![*o]).collect(),
+                                observe: vec![0],
+                            });
+                        }
+                    }
+                }
+            }
+        }
+    }
     v
 }
 
